@@ -17,7 +17,7 @@
 (***************************************************************************)
 EXTENDS Impl
 
-Probe == <<"a", "b", "c", "d", "p", "zz">>
+Probe == <<"a", "b", "c", "d", "pp", "zz">>
 
 IsLookupErr(c) == c \in {"IndexError", "KeyError", "KeyErrorCloseMatches", "UserKeyError"}
 
